@@ -731,7 +731,8 @@ def run_model(exe, cf, tag, prop="c05"):
     mout = os.path.join(d, "model_%s.out" % tag)
     if os.path.exists(mout):
         os.remove(mout)
-    rc, out, dt = run([exe, cf, mout] + model_flags(), timeout=900)
+    # extracted list functions are not tail recursive: large capture sets need a large stack
+    rc, out, dt = run(["bash", "-c", 'ulimit -s unlimited 2>/dev/null || ulimit -s 4000000 2>/dev/null; exec "$@"', "bash", exe, cf, mout] + model_flags(), timeout=1800)
     note = "" if rc == 0 else "model driver rc=%d: %s" % (rc, out[-800:])
     return parse_out(mout), note, dt
 
